@@ -373,7 +373,14 @@ class PDFContentParser(PSStackParser[Union[PSKeyword, PDFStream]]):
                         and filter[0] in LITERALS_ASCII85_DECODE
                     ):
                         eos = b"~>"
-                (pos, data) = self.get_inline_data(pos + len(b"ID "), target=eos)
+                # The image data starts after the single white-space byte
+                # that ends the ID keyword.  The tokenizer stands on that byte
+                # now, possibly already in the next stream of a Contents
+                # array, where an offset relative to the stream that holds
+                # "ID" (pos) would point somewhere else.
+                (pos, data) = self.get_inline_data(
+                    self.bufpos + self.charpos + 1, target=eos
+                )
                 if eos != b"EI":  # it may be necessary for decoding
                     data += eos
                 obj = PDFStream(d, data)
